@@ -49,3 +49,29 @@ func (ch *Chain) ExportImport() (same bool, err error) {
 	ch.F, ch.Ctx = f2, ctx2
 	return bytes.Equal(bz, bz3), nil
 }
+
+// InitRaw hands the exported genesis, with every bridge's finalization period replaced, to InitGenesis of a fresh chain as
+// InitChain does (no ValidateGenesis).  It reports whether InitGenesis accepted it; the probe chain is thrown away.
+func (ch *Chain) InitRaw(periodTicks int64) (accepted bool) {
+	defer func() {
+		if r := recover(); r != nil {
+			accepted = false
+		}
+	}()
+	f := ch.F
+	gs := f.Host.ExportGenesis(ch.Ctx)
+	bz, err := f.Cdc.MarshalJSON(gs)
+	if err != nil {
+		panic(err)
+	}
+	var gs2 ophosttypes.GenesisState
+	if err := f.Cdc.UnmarshalJSON(bz, &gs2); err != nil {
+		panic(err)
+	}
+	for i := range gs2.Bridges {
+		gs2.Bridges[i].BridgeConfig.FinalizationPeriod = TicksDuration(periodTicks)
+	}
+	f2, ctx2 := NewFixture()
+	f2.Host.InitGenesis(ctx2.WithBlockHeight(0), &gs2)
+	return true
+}
